@@ -96,7 +96,7 @@ def strip_dots(v):
 def make_cfg(rs, tier):
     ns = lib.load()
     return {"prop": ID, "family": G.pick(rs, sorted(ns.families)), "kind": G.pick(rs, ["dict", "list"]),
-            "wc": rs.random() < 0.5, "threading": rs.random() < 0.7, "length": 0, "oracles": ["backend", "result", "accept"],
+            "wc": rs.random() < 0.5, "threading": rs.random() < 0.7, "length": 0, "oracles": ["backend", "result", "accept", "children"],
             "uuid_seed": rs.getrandbits(32), "nested": rs.random() < 0.4}
 
 
@@ -168,6 +168,16 @@ def build(seed, i, cfg, rg):
             steps.append({"t": "op", "hid": hid, "name": "append", "args": ["placeholder"]})
             a = ("setitem", [0, v])
         steps.append({"t": "op", "hid": hid, "name": a[0], "args": a[1]})
+        # a stored container must itself be a live part of the collection: navigate into it and store once more
+        if isinstance(v, (dict, list)) and a[0] in ("setitem", "setdefault", "update", "append", "insert", "iadd", "extend") \
+                and not isinstance(a[1][0], dict):
+            pos = a[1][0] if a[0] in ("setitem", "setdefault") else (key if a[0] == "update" else (0 if a[0] in ("insert", "extend") else -1))
+            if a[0] == "setitem" and path_kind == "list":
+                pos = 0
+            nh = 2 if init is not None else 1
+            steps.append({"t": "op", "hid": hid, "name": "getitem", "args": [pos], "keep": True, "hid_new": nh})
+            steps.append({"t": "op", "hid": nh, "name": "setitem", "args": ["inner", 99]} if isinstance(v, dict)
+                         else {"t": "op", "hid": nh, "name": "append", "args": [99]})
     steps.append({"t": "restart", "rid": 0, "wc": cfg["wc"]})
     steps.append({"t": "op_last_root", "name": "call"})
     return steps, v, entry
